@@ -36,6 +36,22 @@ theorem exists_of_isExecuted {x : R (Outcome × World)} (h : isExecuted x = true
     | rejected => exact Bool.noConfusion h
     | executed r => exact ⟨r, w', rfl⟩
 
+/-- for witnesses: the sender loads and is, in C02's reading, `snd` -/
+def loadedSenderIs (w : World) (a : Nat) (snd : TxValidate.Sender) : Bool :=
+  match loadSender w a with
+  | .ok (_, acc, code) => decide (senderOf code acc.info = snd)
+  | .error _ => false
+
+theorem loadedSenderIs_spec {w : World} {a : Nat} {snd : TxValidate.Sender} (h : loadedSenderIs w a snd = true) :
+    ∃ w1 acc code, loadSender w a = .ok (w1, acc, code) ∧ senderOf code acc.info = snd := by
+  unfold loadedSenderIs at h
+  cases hl : loadSender w a with
+  | error e => rw [hl] at h; cases h
+  | ok p =>
+    obtain ⟨w1, acc, code⟩ := p
+    rw [hl] at h
+    exact ⟨w1, acc, code, rfl, by simpa using h⟩
+
 /-- before Prague the floor returned by `calculate_initial_tx_gas` is 0 -/
 theorem initialGas_floor_zero (e : Evm.Env) (spec ig fg : Nat) (h : initialGas e spec = some (ig, fg))
     (hp : enabled spec GasCalc.SpecId.PRAGUE = false) : fg = 0 := by
@@ -130,6 +146,27 @@ abbrev txFrame (e : Evm.Env) (ig : Nat) (res : Interp.ChildResult) : TxGas.Frame
 (`gas_limit − initial_gas`) -/
 def FrameAccounting (fuel : Nat) (w : World) (e : Evm.Env) (spec : Nat) : Prop :=
   ∀ ig fg k res w3, FirstFrameResult fuel w e spec ig fg k res w3 → res.gasRemaining ≤ e.tx.gasLimit - ig
+
+/-- for witnesses: run the stages and test the frame machine's guarantee on the first frame's result -/
+def frameAccountingCheck (fuel : Nat) (w : World) (e : Evm.Env) (spec : Nat) : Bool :=
+  match Evm.preverify w e (GasCalc.canon spec) with
+  | .ok (some (w1, ig, _)) =>
+    (match Evm.prepare journalOps e (GasCalc.canon spec) ig w1 with
+     | .ok (first, w2, _, _) =>
+       (match Evm.runFirst journalOps (e.toCfg (GasCalc.canon spec)) fuel first w2 with
+        | .ok (res, _) => decide (res.gasRemaining ≤ e.tx.gasLimit - ig)
+        | .error _ => true)
+     | .error _ => true)
+  | _ => true
+
+theorem frameAccounting_of_check {fuel : Nat} {w : World} {e : Evm.Env} {spec : Nat}
+    (h : frameAccountingCheck fuel w e spec = true) : FrameAccounting fuel w e spec := by
+  intro ig fg k res w3 hff
+  obtain ⟨w1, first, w2, isCreate, hp, hpr, hrf⟩ := hff
+  unfold frameAccountingCheck at h
+  rw [hp] at h
+  simp only [hpr, hrf, decide_eq_true_eq] at h
+  exact h
 
 /-- a completed executed transaction: its first frame's result and what `finish` reports of it -/
 theorem transact_first_frame (fuel : Nat) (w w' : World) (e : Evm.Env) (spec : Nat) (r : TxResult)
